@@ -219,7 +219,7 @@ Proof. unfold memP. cbn. split; [discriminate|tauto]. Qed.
 Lemma model_history_accepted o ps l : model_history o ps = OOk l -> check_history o ps l = true.
 Proof.
   unfold model_history, check_history, offset_in_domain. intros E.
-  destruct ((0 <=? o) && (o <=? BIG) && (o mod 64 =? 0)) eqn:D; [|discriminate].
+  destruct ((- BIG <=? o) && (o <=? BIG) && (o mod 64 =? 0)) eqn:D; [|discriminate].
   apply andb_true_iff in D. destruct D as [_ D]. apply Z.eqb_eq in D.
   assert (I : Inv (true = true) o (memP []) (NewTailBitmap o)).
   { eapply Inv_ext; [|exact (Inv_New _ o D)]. intros j. rewrite memP_nil. tauto. }
